@@ -19,7 +19,7 @@ MANIFEST = {
     "design_ref": "DESIGN.md 5 (C08)",
 }
 
-BOUNDS = {"quick": {"vertices": 3, "links": "2-3", "payload_values": 2}, "thorough": {"vertices": 3, "links": "2-3", "payload_values": 3}}
+BOUNDS = {"quick": {"vertices": "3 (4 in one anchored configuration)", "links": "2-3", "payload_values": 2}, "thorough": {"vertices": 3, "links": "2-3", "payload_values": 3}}
 TIME_BUDGET = {"quick": 400, "thorough": 1200}
 STUBS = ["attribute values: harness class Box with interpreted __eq__ over a symbolic int payload"]
 ASSUMPTIONS = ["attribute values' __eq__ is pure and total", "links are two-ended with two vertex ends",
@@ -50,6 +50,8 @@ def configs(tier):
             if tier != "quick" or uni == "none":
                 out.append({"classes": cs, "uni": uni, "falsy": falsy, "sought": "none"})
     out.append({"classes": ["DE", "DE", "DE"], "uni": "none", "falsy": 2, "symbreak": True, "sought": "box"})
+    # four vertices: a way back to the start plus matches in two different branches (s - a, s -> b, a -> c)
+    out.append({"classes": ["UE", "DE", "DE"], "uni": "none", "falsy": None, "symbreak": True, "sought": "box", "nverts": 4})
     if tier != "quick":
         out.append({"classes": ["DE", "DE", "DE"], "uni": "sym", "falsy": 1, "symbreak": True, "sought": "box"})
         out.append({"classes": ["DE", "UE", "DE"], "uni": "none", "falsy": None, "symbreak": True, "sought": "none"})
@@ -104,10 +106,11 @@ if ti is not None:
 
 def scenario(B, p):
     B.define(BOX_SRC)
-    vcls = ["Vertex"] * 3
+    nv = p.get("nverts", 3)
+    vcls = ["Vertex"] * nv
     if p["falsy"] is not None:
         vcls[p["falsy"]] = "FalsyVertex"
-    verts = make_vertices(B, 3, vcls)
+    verts = make_vertices(B, nv, vcls)
     links = make_links(B, p["classes"])
     n = len(links)
     symbolic_assoc_state(B, verts, links, n, n, two_ended_wellformed=True)
@@ -115,6 +118,9 @@ def scenario(B, p):
         for e in B.items(B.get_field(l, "_vertices")):
             B.assume(B.not_(B.is_(e, None)), "ends are vertices")
     B.assume(inv01(B, verts, links), "Inv01(pre)")
+    if nv == 4:
+        # the first link is anchored at the start vertex; the start carries no attribute, the others a box
+        B.assume(B.is_(B.items(B.get_field(links[0], "_vertices"))[0], verts[0]), "first link anchored at the start")
     if p.get("symbreak"):
         def rank(e):
             r = 0
@@ -144,6 +150,9 @@ def scenario(B, p):
                 B.set_field(v, "k", None)
             elif kind == 2:
                 B.set_field(v, "k", B.new("box_" + lab, "Box", 0))
+        elif nv == 4:
+            if v is not verts[0]:
+                B.set_field(v, "k", B.new("box_" + lab, "Box", B.int(lab + ".payload", 0, 1)))
         else:
             if B.choice(lab + ".attr", 2) == 1:
                 B.set_field(v, "k", B.new("box_" + lab, "Box", B.int(lab + ".payload", 0, 1)))
